@@ -11,6 +11,9 @@ def run(tier, seed):
         {"prog": "page-collect", "strategy": "random", "runs": (150, 2000), "args": ["--snap", "3", "--spurious", "2", "--rate", "2"]},
         {"prog": "page", "strategy": "random", "runs": (100, 1500), "args": ["--snap", "3", "--size", "60000", "65536", "--spurious", "1"]},
         {"prog": "page-collect", "strategy": "random", "runs": (60, 800), "args": ["--snap", "3", "--park", "6", "--rate", "3"]},
+        # remote frees racing with mi_heap_delete of the heap that owns the page (the delayed list of the dying heap is drained before AND after its pages move)
+        {"prog": "page-delete", "strategy": "random", "runs": (150, 2000), "args": ["--snap", "3", "--spurious", "2", "--rate", "3"]},
+        {"prog": "page-delete", "strategy": "pct", "runs": (100, 1500), "args": ["--snap", "3", "--spurious", "1"]},
         {"prog": "pc", "strategy": "random", "runs": (2, 12), "args": ["--rate", "5"]},
         {"prog": "pc", "strategy": "random", "runs": (2, 8), "args": ["--size", "60000", "65536"]},
         {"prog": "pc", "strategy": "random", "runs": (1, 6), "args": ["--size", "900000", "1048576"]},
@@ -36,4 +39,4 @@ def run(tier, seed):
                             extra_cov={"forced_abandonment": {k: ocov[k] for k in ("traces_validated_against_impl", "trace_events_validated", "os_events", "runs_sample")}, "heap_queue_model": ocov["heap_queue_model"],
                                        "os_part_dumps": {k: ocov.get(k, 0) for k in ("segment_tables_validated", "heap_dumps_validated", "arena_dumps_validated")}}, mc=("MiPage", ("MiPage_mc.cfg", "MiPage_mc_thorough.cfg")), guided_progs=("page",),
                             assumptions=["QuiescentClean is demanded after a forced mi_heap_collect of the owner's (user) heap once every block was freed by whichever thread",
-                                         "NoBlowUp compares the maximum number of page areas of the producer heap in the second half of 2400 rounds with the first half (+2 + an eighth of it), with the default and a maximal MIMALLOC_GENERIC_COLLECT"])
+                                         "NoBlowUp compares the maximum number of page areas of the producer heap in the second half of 2400 rounds with the first half (+4 + an eighth of it), with the default and a maximal MIMALLOC_GENERIC_COLLECT"])
